@@ -25,7 +25,14 @@ def module(with_export=True):
     m.add_func('i', 'i', (), local_get(0) + call(0), export='spawn')
     body = (local_get(1) + i32_const(4) + op(0x6c) + i32_const(1) + atomic(0x1e, 2, 0) + DROP +
             local_get(1) + i32_const(4) + op(0x6c) + local_get(0) + atomic(0x17, 2, 256) + local_get(0) + global_set(0))
-    m.add_func('ii', '', (), body, export='wasi_thread_start' if with_export else 'not_the_start_function')
+    # look-alike export names on both sides of the real one: a longer name with the same prefix BEFORE it in the export section, a shorter
+    # one and one with a character in front after it; the module "without the export" has ONLY look-alikes (wasi_thread_starter, ...)
+    decoy = m.add_func('ii', '', (), local_get(1) + i32_const(4) + op(0x6c) + i32_const(1000) + atomic(0x1e, 2, 0) + DROP)
+    m.exports.append(('wasi_thread_start_hook', 0, decoy))
+    m.add_func('ii', '', (), body, export='wasi_thread_start' if with_export else 'wasi_thread_starter')
+    m.exports.append(('wasi_thread_star', 0, decoy)); m.exports.append(('_wasi_thread_start', 0, decoy)); m.exports.append(('wasi_thread_start\x01', 0, decoy))
+    if not with_export:
+        m.exports = [e for e in m.exports if e[0] != 'wasi_thread_start_hook'] + [('wasi_thread_start_hook', 0, decoy)]
     return m.encode()
 
 
@@ -128,6 +135,14 @@ def oracle(job, o):
         if any(c[0] for c in cells.values()):
             fails.append(('spawn|no-export|something-ran', 'module does not export wasi_thread_start but a start function ran: %s' % desc))
         return fails
+    # arguments >= 20: the native thread creation of that spawn FAILS (environment answer, mc_fail_next_create): negative result, nothing runs
+    for a, r in list(rets.items()):
+        if a >= 20:
+            if r >= 0:
+                fails.append(('spawn|creation-failed|non-negative-result', 'the native thread creation for thread-spawn(%d) failed, but it returned %d: %s' % (a, r, desc)))
+            if cells.get(a, (0, 0))[0] != 0:
+                fails.append(('spawn|creation-failed|something-ran', 'the native thread creation for thread-spawn(%d) failed, but a start function ran: %s' % (a, desc)))
+            del rets[a]
     ids = list(rets.values())
     if any(r <= 0 for r in ids):
         fails.append(('spawn|non-positive-id', 'thread-spawn returned a non-positive identifier: %s' % desc))
@@ -147,7 +162,9 @@ def oracle(job, o):
 def make_cases(tier):
     """(parent words, pb plain, pb sanitizer builds, round).  Measured schedules (plain): 2 parents x 1 spawn: pb 1/2 = 270 / 1 502;
     2+1 spawns: 2 502 / 26 439; 3 parents x 1: pb 1/2 = 19 432 / 258 342"""
-    cs = [(['1', '2'], 2, 2, 0), (['1.2'], 2, 2, 0), (['1.2', '3'], 2, 1, 0), (['1', '2', '3'], 1, 0, 0)]
+    cs = [(['1', '2'], 2, 2, 0), (['1.2'], 2, 2, 0), (['1.2', '3'], 2, 1, 0), (['1', '2', '3'], 1, 0, 0),
+          # a spawn whose native thread creation fails, next to spawns that succeed (identifiers must stay distinct)
+          (['21.1', '2'], 2, 1, 0), (['1', '22'], 2, 2, 0), (['21.22.3'], 1, 1, 0)]
     if tier != 'quick':
         cs += [(['1', '2'], 4, 3, 1), (['1.2', '3'], 3, 2, 1), (['1.2', '3.4'], 2, 1, 2), (['1', '2', '3'], 2, 1, 2), (['1.2.3'], 3, 3, 1)]
     return cs
